@@ -161,13 +161,15 @@ class ClassNames:
 
 
 class XsdGen:
-    def __init__(self, rng, salt, hostile=False, max_types=4, depth=2, simple=False):
+    def __init__(self, rng, salt, hostile=False, max_types=4, depth=2, simple=False, nest_p=0.12, cycle_p=0.15):
         self.rng = rng
         self.salt = salt
         self.hostile = hostile
         self.max_types = max_types
         self.depth = depth
         self.simple = simple  # restrict to the order-preserving sub-fragment
+        self.nest_p = nest_p  # probability of a nested group per particle
+        self.cycle_p = cycle_p  # probability of a reference cycle over 2-3 named types
         self.used_global = set()
         self.class_names = ClassNames()
         self.family = None
@@ -292,7 +294,7 @@ class XsdGen:
             return 1, -1
         return rng.choice([(2, 3), (0, 2), (1, 4)])
 
-    def group(self, ss, schema, used, depth, ctypes):
+    def group(self, ss, schema, used, depth, ctypes, gdepth=0):
         rng = self.rng
         kind = rng.choice(["sequence", "sequence", "sequence", "choice"] + ([] if depth else ["all"]))
         g = Group(kind, [])
@@ -301,14 +303,14 @@ class XsdGen:
         n = rng.randrange(1, 5)
         for _ in range(n):
             r = rng.random()
-            if r < 0.12 and depth < self.depth and kind != "all" and not self.simple:
-                sub = self.group(ss, schema, used, depth + 1, ctypes)
+            if r < self.nest_p and depth < self.depth and kind != "all" and not self.simple:
+                sub = self.group(ss, schema, used, depth + 1, ctypes, gdepth + 1)
                 sub.min, sub.max = self.occurs()
                 if sub.max != 1 and not (sub.kind == "choice" and all(isinstance(x, ElemDecl) and x.max == 1 for x in sub.items)):
                     ss.order_preserving = False
                 self.feat.add(f"nested-{sub.kind}")
                 g.items.append(sub)
-            elif r < 0.17 and kind == "sequence" and not self.simple and not any(isinstance(x, AnyP) for x in g.items):
+            elif r < self.nest_p + 0.05 and kind == "sequence" and gdepth == 0 and not self.simple and not any(isinstance(x, AnyP) for x in iter_particles(g)):
                 self.feat.add("any")
                 g.items.append(AnyP("##other", rng.choice(["lax", "skip"]), 0, rng.choice([1, -1])))
                 ss.order_preserving = False
@@ -377,13 +379,17 @@ class XsdGen:
             if ct.simple_base.base in ("list", "union"):
                 ct.simple_base = SimpleT(None, "string")
             self.feat.add("simple-content")
+            if rng.random() < 0.3:
+                used.add("value")  # an attribute with the name the generator gives to the text field
+                ct.pre_attrs = [AttrDecl("value", SimpleT(None, rng.choice(["string", "int", "token"])), use=rng.choice(["optional", "required"]))]
+                self.feat.add("simple-content-attribute-named-value")
         else:
             ct.content = self.group(ss, schema, used, depth, ctypes)
             if rng.random() < 0.08 and not self.simple:
                 ct.mixed = True
                 self.feat.add("mixed")
                 ss.order_preserving = False
-        ct.attrs = self.attrs(schema, used)
+        ct.attrs = getattr(ct, "pre_attrs", []) + self.attrs(schema, used)
         if rng.random() < 0.08:
             ct.any_attribute = True
             self.feat.add("anyAttribute")
@@ -435,6 +441,19 @@ class XsdGen:
                 if c.content.kind == "choice":
                     pass
                 self.feat.add("recursion")
+        # reference cycle over 2-3 named types: each gets an optional element of the next type
+        cyc = [c for c in main.ctypes if c.content is not None and c.content.kind == "sequence" and c.base is None and not any(d.base is c for d in main.ctypes)]
+        if rng.random() < self.cycle_p and len(cyc) >= 2 and not self.simple:
+            members = rng.sample(cyc, rng.choice([2, 3, min(4, len(cyc))]) if len(cyc) >= 3 else 2)
+            if len(members) >= 3 and rng.random() < 0.5:
+                # star: a hub and several spokes that refer to each other (the spokes are peers in any dependency order)
+                pairs = [(members[0], m) for m in members[1:]] + [(m, members[0]) for m in members[1:]]
+                self.feat.add("type-cycle-star")
+            else:
+                pairs = list(zip(members, members[1:] + members[:1]))  # ring
+            for a, b in pairs:
+                insert_before_any(a.content, ElemDecl(self.name(names_of(a)), b, min=0, max=rng.choice([1, 1, -1])))
+            self.feat.add("type-cycle")
         # element ref to the imported global element
         if other is not None and main.ctypes:
             c = rng.choice(main.ctypes)
